@@ -883,11 +883,21 @@ def _cc_stacks(ctx, base):
         S.append(({"base": base, "kw": {"solver": "Euler"}, "wrappers": [["ClipAction", {}], tl()]}, 1, False, False))
         S.append(({"base": base, "kw": {"solver": "Tsit5"}, "wrappers": [["RescaleAction", [{}, {"min": -3.0, "max": 0.5}][int(rng.integers(2))]],
                                                                       ["TransformReward", {"f": "half"}], tl()]}, 1, False, False))
+    if box_act and bounded_obs:
+        # an action wrapper *outside* a wrapper that changes the observation space: the stack must still declare
+        # the space of what it emits (the inner stack's), not the bare environment's
+        S.append(({"base": base, "kw": {"solver": "Euler"}, "wrappers": [["RescaleObservation", rmm(od)], ["ClipAction", {}], tl()]}, ctx.n(1, 3), False, False))
+        S.append(({"base": base, "kw": {"solver": "Tsit5"}, "wrappers": [["RescaleObservation", {}], ["RescaleAction", {}]] + ([tl()] if never else [])}, 0, False, False))
     # random composite stacks, depth 3-4
     for _ in range(ctx.n(1, 4)):
         w = []
+        act_outer = None
         if box_act and rng.random() < 0.7:
-            w.append([["ClipAction", {}], ["RescaleAction", {}]][int(rng.integers(2))])
+            aw = [["ClipAction", {}], ["RescaleAction", {}]][int(rng.integers(2))]
+            if rng.random() < 0.5:
+                w.append(aw)
+            else:
+                act_outer = aw  # placed outermost, after the observation / reward wrappers
         pool = [["Identity", {}], ["ClipObservation", {}], ["FlattenObservation", {}], ["ClipReward", {"min": -0.5, "max": 0.5}],
                 ["TransformReward", {"f": "neg_square"}], tl()]
         if bounded_obs:
@@ -902,6 +912,8 @@ def _cc_stacks(ctx, base):
                     continue
                 obs_changed = obs_changed or item[0] == "FlattenObservation"
             w.append(item)
+        if act_outer is not None:
+            w.append(act_outer)
         if never and not any(x[0] == "TimeLimit" for x in w):
             w.append(tl())
         S.append(({"base": base, "kw": {"solver": str(rng.choice(["Euler", "Tsit5"]))}, "wrappers": w}, 0, False, False))
@@ -932,6 +944,22 @@ def u_classic(ctx, base):
         ctx.require(m, 1)
 
 
+_CL = {}
+
+
+def _CL_JIT(roll):
+    """One jitted vmapped rollout per unit process: the env is an argument, so constructor variants that differ
+    in array leaves only reuse the compiled program."""
+    import equinox as eqx
+    import jax
+
+    if "f" not in _CL:
+        _CL["roll"] = roll
+        _CL["f"] = eqx.filter_jit(lambda env, keys, sides: jax.vmap(lambda k, sd: _CL["roll"](env, k, sd))(keys, sides))
+    _CL["roll"] = roll
+    return _CL["f"]
+
+
 def _closed_loop(ctx, base):
     """Hostile *closed-loop* action sequences (in-space actions chosen from the observation) reach states
     that open-loop random / corner / constant drivers never do: a balanced CartPole driven along the track,
@@ -956,17 +984,28 @@ def _closed_loop(ctx, base):
         return jnp.where(obs[2] * side >= 0, 2.0, -2.0) * side  # Pendulum: spin up
 
     K, T = 16, ctx.n(600, 1500)
-    for solver in (["Tsit5", "Euler"] if not ctx.quick else ["Tsit5"]):
-        env = build_env({"base": base, "kw": {"solver": solver}, "wrappers": []})
+    # default constructor plus non-default ones (array leaves: the compiled rollout is reused): documented
+    # options under which the goal / threshold no longer stops the state before it reaches the edge of the box
+    variants = [{}]
+    for _ in range(ctx.n(2, 6)):
+        variants.append(_cc_params(ctx.rng, base))
+    if base in ("MountainCar", "ContinuousMountainCar"):
+        variants.append({"goal_velocity": float(ctx.rng.uniform(0.03, 0.06))})
+        variants.append({"goal_velocity": 0.05, "max_position": float(ctx.rng.uniform(0.3, 0.55)), "goal_position": 0.25})
+    for vi, (solver, extra) in enumerate([(sv, ex) for sv in (["Tsit5", "Euler"] if not ctx.quick else ["Tsit5"]) for ex in variants]):
+        env = build_env({"base": base, "kw": dict(extra, solver=solver), "wrappers": []})
         om = space_model(env.observation_space)
+        ctx.monitor("closed_loop_constructor_variants" if extra else "closed_loop_default_constructor")
 
-        def roll(key, side):
+        def roll(env, key, side):
             k0, k1 = jr.split(key)
             st, obs, _ = env.reset(key=k0)
 
             def body(c, k):
                 st, obs = c
                 a = jnp.asarray(controller(obs, side)).astype(env.action_space.canonical().dtype).reshape(env.action_space.shape)
+                if hasattr(env.action_space, "low"):
+                    a = jnp.clip(a, env.action_space.low, env.action_space.high)  # in-space whatever the constructor bounds
                 succ = env.observation(env.transition(st, a, key=k), key=k)
                 st, obs2, r, te, tr, _ = env.step(st, a, key=k)
                 return (st, obs2), (obs2, succ, r, te, tr)
@@ -974,7 +1013,7 @@ def _closed_loop(ctx, base):
             return lax.scan(body, (st, obs), jr.split(k1, T))[1]
 
         sides = jnp.asarray([1.0, -1.0] * (K // 2))
-        obs, succ, rew, te, tr = jax.tree.map(np.asarray, eqx.filter_jit(jax.vmap(roll))(jr.split(ctx.key(77), K), sides))
+        obs, succ, rew, te, tr = jax.tree.map(np.asarray, _CL_JIT(roll)(env, jr.split(ctx.key(77 + vi), K), sides))
         ends = te | tr
         ctx.monitor("closed_loop_episode_ends", int(ends.sum()))
         for sname, X in (("step", obs.reshape((K * T,) + obs.shape[2:])), ("episode-end-successor", succ.reshape((K * T,) + succ.shape[2:])[ends.reshape(-1)])):
@@ -987,16 +1026,16 @@ def _closed_loop(ctx, base):
                 continue
             ctx.monitor("closed_loop_bound_touches", int(j["touch"].sum()))
             if j["nan"].any():
-                ctx.violation(f"{base.lower()}-obs-nan", {"driver": "closed-loop", "stream": sname, "solver": solver})
+                ctx.violation(f"{base.lower()}-obs-nan", {"driver": "closed-loop", "stream": sname, "solver": solver, "kw": extra})
             if j["out"].any():
                 i = int(np.argmax(j["excess"]))
                 ctx.violation(f"{base.lower()}-obs-out-of-bounds" + ("-at-episode-end-successor" if sname != "step" else ""),
-                              {"driver": "closed-loop", "stream": sname, "solver": solver, "obs": X[i], "excess": float(j["excess"][i]),
+                              {"driver": "closed-loop", "stream": sname, "solver": solver, "kw": extra, "obs": X[i], "excess": float(j["excess"][i]),
                                "low": om["low"], "high": om["high"], "count": int(j["out"].sum())})
         if not np.all(np.isfinite(rew)):
             ctx.violation(f"{base.lower()}-reward-not-finite", {"driver": "closed-loop", "solver": solver})
         for k in range(K):
-            ctx.case({"base": base, "driver": "closed-loop", "solver": solver, "key": k, "ends": int(ends[k].sum())},
+            ctx.case({"base": base, "driver": "closed-loop", "solver": solver, "kw": extra, "key": k, "ends": int(ends[k].sum())},
                      nontrivial=bool(ends[k].any()) or base == "Pendulum", cls=f"{base}/closed-loop")
 
 
